@@ -85,12 +85,14 @@ package parser
 //@ func (*lexer).emit
 //@   maypanic bailout
 //@   requires typ == IO_NUMBER || typ == WORD || typ == NAME || typ == ASSIGNMENT_WORD || tokready(l)
+//@   requires[C01 C03] a-name-is-one-literal: typ == NAME ==> len(l.word) == 1 && l.word[0] is *ast.Lit
 //@   ensures len(l.word) == 0
 
 // What a scanned token says about the pending word: a word token has parts,
 // an IO_NUMBER is one literal, anything else (operator, newline, EOF) leaves
 // no pending word.
 //@ func (*lexer).scanRaw
+//@   ensures result != NAME && result != ASSIGNMENT_WORD
 //@   ensures result == WORD ==> len(l.word) >= 1
 //@   ensures result == IO_NUMBER ==> len(l.word) == 1 && l.word[0] is *ast.Lit
 //@   ensures result != WORD && result != IO_NUMBER && result >= 0 ==> len(l.word) == 0
@@ -110,6 +112,7 @@ package parser
 //@   assert[C09] at call parser.(*lexer).comment#1: comment-ends-at-end-of-input: hash
 //@   assert[C09] at call parser.(*lexer).comment#2: comment-ends-at-newline: hash && r == '\n'
 //@ func (*lexer).scanRawToken
+//@   ensures result != NAME && result != ASSIGNMENT_WORD
 //@   ensures[C07 C09] first-token-seen: l.started
 //@   ensures result == WORD ==> len(l.word) >= 1
 //@   ensures result == IO_NUMBER ==> len(l.word) == 1 && l.word[0] is *ast.Lit
@@ -119,6 +122,7 @@ package parser
 // decided by the alias stack as scanToken finds it.
 //@ spec func afterblank(l *lexer) bool = len(l.aliases) != 0 && rpos(l.aliases[len(l.aliases)-1].value) >= len(rsrc(l.aliases[len(l.aliases)-1].value)) && l.aliases[len(l.aliases)-1].blank
 //@ func (*lexer).scanToken
+//@   ensures result != NAME && result != ASSIGNMENT_WORD
 //@   site SUBST = call parser.(*lexer).subst
 //@   assert[C17] at call parser.(*lexer).subst: only-after-a-trailing-blank: old(afterblank(l)) && tok == WORD
 //@   ensures[C17] word-after-blank-examined: old(afterblank(l)) && result == WORD ==> site(SUBST)
@@ -134,7 +138,7 @@ package parser
 //@ func (*lexer).scanOp
 //@   ensures[C07] consumes-exactly-the-operator: old(len(l.aliases)) == 0 ==> len(l.aliases) == 0 && srcpos() == old(srcpos()) + oplen(result) - 1
 //@   requires r == '&' || r == '(' || r == ')' || r == ';' || r == '<' || r == '>' || r == '|'
-//@   ensures result > 0 && result != WORD && result != IO_NUMBER && len(l.word) == old(len(l.word))
+//@   ensures result > 0 && result != WORD && result != IO_NUMBER && result != NAME && result != ASSIGNMENT_WORD && len(l.word) == old(len(l.word))
 // Positions are taken from the line/column count at the moment a token or a
 // word part begins (mark), never while text comes from an alias value; a
 // literal part carries the position marked for it.
@@ -177,6 +181,7 @@ package parser
 //@ func (*heredoc).inc
 //@   ensures old(h.n) < 4294967295 ==> h.n == old(h.n) + 1
 //@ func (*lexer).scanRedir
+//@   ensures result != NAME && result != ASSIGNMENT_WORD
 //@   ensures result == WORD ==> len(l.word) >= 1
 //@   ensures result == IO_NUMBER ==> len(l.word) == 1 && l.word[0] is *ast.Lit
 //@   ensures result != WORD && result != IO_NUMBER && result >= 0 ==> len(l.word) == 0
@@ -187,28 +192,35 @@ package parser
 // A newline at the top level (no open construct, no pending here-document,
 // not inside an alias) ends the call: lexing stops and nothing more is read.
 //@ func (*lexer).lexToken
+//@   requires tok != NAME && tok != ASSIGNMENT_WORD
 //@   ensures[C07] newline-ends-the-command: tok == '\n' && old(l.heredoc.n) == 0 && old(len(l.aliases)) == 0 && old(len(l.stack)) == 0 ==> result == nil && srcpos() == old(srcpos())
 //@   requires tok == WORD || tok == IO_NUMBER || tok <= 0 || tokready(l)
 //@   requires tok == '\n' ==> len(l.word) == 0
 //@ func (*lexer).lexCmd
+//@   requires tok != NAME && tok != ASSIGNMENT_WORD
 //@   site OP = call parser.(*lexer).emit#1
 //@   assert[C01 C07 C08] at call parser.(*lexer).emit#2: heredoc-delimiter-counted: site(OP) && (sitearg(OP, 1) == HEREDOC || sitearg(OP, 1) == HEREDOCI) && arg1 == WORD && old(l.heredoc.n) < 4294967295 ==> l.heredoc.n == old(l.heredoc.n) + 1
 //@   requires tok == WORD ==> len(l.word) >= 1
 //@   requires tok == IO_NUMBER ==> len(l.word) == 1 && l.word[0] is *ast.Lit
 //@   requires tok != WORD && tok != IO_NUMBER && tok >= 0 ==> len(l.word) == 0
 //@ func (*lexer).onCmdSuffix
+//@   requires tok != NAME && tok != ASSIGNMENT_WORD
 //@   site OP = call parser.(*lexer).emit#1
 //@   assert[C01 C07 C08] at call parser.(*lexer).emit#2: heredoc-delimiter-counted: site(OP) && (sitearg(OP, 1) == HEREDOC || sitearg(OP, 1) == HEREDOCI) && arg1 == WORD && old(l.heredoc.n) < 4294967295 ==> l.heredoc.n == old(l.heredoc.n) + 1
 //@   requires tok == WORD ==> len(l.word) >= 1
 //@   requires tok == IO_NUMBER ==> len(l.word) == 1 && l.word[0] is *ast.Lit
 //@   requires tok != WORD && tok != IO_NUMBER && tok >= 0 ==> len(l.word) == 0
 //@ func (*lexer).lexCmdPrefix
+//@   site ASSIGN = call parser.(*lexer).isAssign
+//@   assert[C17] at call parser.(*lexer).subst: assignment-word-first: site(ASSIGN) && !siteret(ASSIGN)
 //@   site OP = call parser.(*lexer).emit#1
 //@   assert[C01 C07 C08] at call parser.(*lexer).emit#3: heredoc-delimiter-counted: site(OP) && (sitearg(OP, 1) == HEREDOC || sitearg(OP, 1) == HEREDOCI) && arg1 == WORD && old(l.heredoc.n) < 4294967295 ==> l.heredoc.n == old(l.heredoc.n) + 1
 //@ func (*lexer).lexRedir
 //@   site OP = call parser.(*lexer).emit#1
 //@   assert[C01 C07 C08] at call parser.(*lexer).emit#2: heredoc-delimiter-counted: site(OP) && (sitearg(OP, 1) == HEREDOC || sitearg(OP, 1) == HEREDOCI) && arg1 == WORD && old(l.heredoc.n) < 4294967295 ==> l.heredoc.n == old(l.heredoc.n) + 1
 //@ func (*lexer).lexSimpleCmd
+//@   site ASSIGN = call parser.(*lexer).isAssign
+//@   assert[C17] at call parser.(*lexer).subst: assignment-word-first: site(ASSIGN) && !siteret(ASSIGN)
 //@   requires len(l.word) >= 1
 //@ func (*lexer).lexSubshell
 //@   requires tokready(l)
@@ -221,6 +233,12 @@ package parser
 // looked up: a reserved word is never replaced.
 //@ func (*lexer).lexFor
 //@   requires tokready(l)
+//@   site SKIP1 = call parser.(*lexer).linebreak#1
+//@   site SKIP2 = call parser.(*lexer).linebreak#2
+//@   site SKIP3 = call parser.(*lexer).linebreak#3
+//@   assert[C09] at call parser.(*lexer).scanRawToken#2: blank-lines-and-comments-skipped-after-the-separator: site(SKIP1)
+//@   assert[C09] at call parser.(*lexer).scanRawToken#3: blank-lines-and-comments-skipped-after-the-newline: site(SKIP2)
+//@   assert[C09] at call parser.(*lexer).scanRawToken#4: blank-lines-and-comments-skipped-after-the-word-list: site(SKIP3)
 //@   assert[C17] at call parser.(*lexer).subst#1: reserved-word-first: tok != Do
 //@   assert[C17] at call parser.(*lexer).subst#2: reserved-word-first: tok != In && tok != Do
 //@   assert[C17] at call parser.(*lexer).subst#3: reserved-word-first: tok != Do
@@ -248,6 +266,7 @@ package parser
 //@   requires tokready(l)
 
 //@ func (*lexer).tr
+//@   ensures tok != NAME && tok != ASSIGNMENT_WORD ==> result != NAME && result != ASSIGNMENT_WORD
 //@   ensures[C17] reserved-translated: tok == WORD && len(l.word) == 1 && l.word[0] is *ast.Lit && has(words, l.word[0].(*ast.Lit).Value) ==> result == words[l.word[0].(*ast.Lit).Value]
 //@   ensures result != tok ==> len(l.word) == 1 && l.word[0] is *ast.Lit && result > 255
 //@   preserves *
@@ -280,11 +299,17 @@ package parser
 //@   ensures[C17] nothing-pushed: !result ==> l.aliases == old(l.aliases)
 
 //@ func (*lexer).lexCaseItem
-//@   loop "for" invariant tokword(l, tok)
+//@   loop "for" invariant tokword(l, tok) && tok != NAME && tok != ASSIGNMENT_WORD
 // Here-document bodies are read with no token pending, and each body ends
 // with the pending word handed over to its redirection.
 //@ func (*lexer).lexHeredoc
 //@   loop "for _, w := range h.Word" invariant[C08] quoted-so-far: quoted == (exists j: 0 <= j && j <= rangeindex && h.Word[j] is *ast.Quote)
+//@   assert[C03 C08] at call parser.(*lexer).lexHeredoc$1#1: only-the-last-document-may-end-at-end-of-input: l.heredoc.n == 0
+//@   site PREVEND = call ast.(*Lit).End
+//@   site THISPOS = call ast.(*Lit).Pos
+//@   assert[C04 C08] at call parser.(*lexer).mark#2: body-lines-are-joined-only-after-comparing-end-and-start: site(PREVEND) == site(THISPOS)
+//@   site NLSTORED = call strings.(*Builder).WriteByte
+//@   assert[C08] at call parser.(*lexer).mark#2: newline-of-the-body-is-kept: w1 != nil || site(NLSTORED)
 //@   assert[C08] at call parser.(*lexer).scanParamExp: body-expanded-only-if-unquoted: !quoted
 //@   assert[C08] at call parser.(*lexer).scanCmdSubst: body-expanded-only-if-unquoted: !quoted
 //@   assert[C08] at call parser.(*lexer).esc: body-expanded-only-if-unquoted: !quoted
@@ -328,6 +353,9 @@ package parser
 // part: the body is everything before the delimiter line.
 //@ func (*lexer).lexHeredoc$1
 //@   requires r != nil
+//@   site COL = call ast.(Pos).Col
+//@   site LINE = call parser.(*lexer).print
+//@   ensures[C07 C08] delimiter-line-is-a-whole-line-equal-to-the-delimiter: result ==> site(COL) && siteret(COL) == 1 && site(LINE) && siteret(LINE) == delim
 //@   ensures[C08] partition: result ==> r.Heredoc == old(l.word)[:i] && r.Delim == old(l.word)[i:] && 0 <= i && i < old(len(l.word)) && len(l.word) == 0
 //@   ensures[C08] nothing-moved: !result ==> l.word == old(l.word)
 //@   loop "for i := len(l.word) - 1; i >= 0; i--" invariant i < len(l.word)
